@@ -114,10 +114,11 @@ KeysOf ==
       [] Kind = "QR" -> {k \in GeneralKeys : k[2] # "uni" \/ k[1] <= 33} \cup {<<n, "hq", d, 0>> : n \in Sizes, d \in {0, 1}}
 Keys == {k \in KeysOf : k[1] >= MinSize(k[4])}
 
-FormSizes == {1, 2, 3, 4, 5, 9, 17, 33, 65}
+FormSizes == {1, 2, 3, 4, 5, 9, 17}
 FormOK(n) == WideForms = 1 \/ n \in FormSizes
 Types == {"f64", "f32"}
-KCols(n, d) == 1 + (H3(n, d, 7) % 5)                      \* 1..5 right-hand-side columns
+\* 1..5 right-hand-side columns; a function of n only: every distinct (n, k) is another instantiation of the unrolled substitutions
+KCols(n, d) == 1 + (H3(n, 0, 7) % 5)
 
 \* the calls made on a matrix; piv = the strategy pre-pivots; need in {"nopiv", "piv", "lower", "upper", "any"} = required domain
 Call(s, f, T, k, pk, need) == [strategy |-> s, form |-> f, T |-> T, k |-> k, pk |-> pk, need |-> need]
